@@ -199,6 +199,25 @@ func init() {
 		fr.i.S.maxPreempt = args[0].(int)
 		return nil
 	}
+	externals[vp+"Or"] = func(fr *frame, args []value) value {
+		var acc value = false
+		for _, a := range args[0].([]value) {
+			acc = fr.i.orv(acc, a)
+		}
+		return acc
+	}
+	externals[vp+"And"] = func(fr *frame, args []value) value {
+		var acc value = true
+		for _, a := range args[0].([]value) {
+			acc = fr.i.andv(acc, a)
+		}
+		return acc
+	}
+	externals[vp+"Not"] = func(fr *frame, args []value) value { return notv(args[0]) }
+	externals[vp+"Implies"] = func(fr *frame, args []value) value { return fr.i.orv(notv(args[0]), args[1]) }
+	externals[vp+"Iff"] = func(fr *frame, args []value) value {
+		return fr.i.eqv(types.Typ[types.Bool], args[0], args[1])
+	}
 	externals[vp+"Symbolic"] = func(fr *frame, args []value) value { return true }
 	externals[vp+"Tier"] = func(fr *frame, args []value) value { return fr.i.P.ex.Tier }
 	externals[vp+"ExpectPanic"] = func(fr *frame, args []value) (res value) {
